@@ -359,7 +359,7 @@ func TestC07(t *testing.T) {
 					}
 				})
 				restore()
-				r.Case(cell, nc.known, "entry="+entry, "hooks="+hooks, "family="+string(nc.ti.Family))
+				r.Case(cell, nc.known, "names entry="+entry, "names hooks="+hooks, "names family="+string(nc.ti.Family))
 				if done%61 == 0 {
 					r.Sample(cell, map[string]interface{}{"name": nc.name, "entry": entry, "hooks": hooks, "result": fmt.Sprintf("%T", it)})
 				}
